@@ -560,7 +560,50 @@ func c04Run(t *testing.T, c *choice.Stream, r *Result, opt RunOpt, forced *c04Fo
 			conn.Window = c.Pick("window.insert", 8, 8, 64) // an exception or a cut while a data block is half-way out
 		}
 		conn.CloseErr = c.Bool("close_err", 1, 4) // releasing the connection reports an error
+		var inputIdle time.Duration // time an input callback spent waiting for data of its own while the query was alive
+		ctxDeadlineOff := false
+		if sc.kind == "insert" && sc.query.OnInput != nil && forced == nil && (faultName == "exception" || faultName == "bad_code" || faultName == "unexpected") && c.Bool("input.waits", 1, 3) {
+			// a producer that has nothing to hand over yet: the callback waits on the
+			// context it was given (the usual channel-fed pattern). Once the server
+			// has ended the query and the client has read all of it, that context
+			// must end too; the wait gives up by itself after half a minute
+			inner := sc.query.OnInput
+			waitRound := 1 + c.Draw("input.waits.round", 3)
+			ctxDeadlineOff = true
+			calls := 0
+			sc.query.OnInput = func(ctx context.Context) error {
+				calls++
+				if calls == waitRound {
+					r.Fire("input_callback_waits_on_its_context")
+					over := time.Duration(0)
+					tick := max(cf.EffReadTimeout()/2, time.Millisecond)
+					for i := 0; i < 16; i++ {
+						t := time.NewTimer(tick)
+						select {
+						case <-ctx.Done():
+							t.Stop()
+							e.Sim.Yield("input.wait.done")
+							return ctx.Err()
+						case <-t.C:
+						}
+						e.Sim.Yield("input.wait.tick")
+						if !(srv.Done() && conn.ReadLen() == conn.Enq()) {
+							inputIdle += tick // nothing has ended the query yet: the caller's own time
+							continue
+						}
+						if over += tick; over >= 4*tick {
+							r.Violate("no-return", "input-callback-not-released:"+faultName, "the server ended the query (%s) and the client has read all of it, yet %v later the context given to OnInput is still not done: a callback that waits on it keeps Do from returning", faultName, over)
+							break
+						}
+					}
+				}
+				return inner(ctx)
+			}
+		}
 		ctxDeadline := time.Duration(c.Pick("ctx.deadline.s", 0, 0, 20, 120)) * time.Second
+		if ctxDeadlineOff {
+			ctxDeadline = 0 // a caller that waits for its producer sets no deadline
+		}
 		probeLate := c.Bool("probe.late", 1, 2)
 		r.Cell = fmt.Sprintf("%s/%s/comp%d", sc.kind, faultName, cf.Comp)
 		r.Sample = map[string]any{"kind": sc.kind, "fault": faultName, "client_rev": cf.ClientRev, "server_rev": cf.ServerRev, "compression": cf.Comp.String(),
@@ -656,7 +699,7 @@ func c04Run(t *testing.T, c *choice.Stream, r *Result, opt RunOpt, forced *c04Fo
 					return
 				}
 			}
-			if lim := cf.EffReadTimeout() + 5*time.Second; took > lim && !(faultName == "corrupt" && ctx.Err() != nil) {
+			if lim := cf.EffReadTimeout() + 5*time.Second; took-inputIdle > lim && !(faultName == "corrupt" && ctx.Err() != nil) {
 				r.Violate("slow-return", "slow-return:"+faultName, "Do returned after %v of simulated time (read timeout %v) with %v", took, cf.EffReadTimeout(), derr)
 			}
 			excWhole := true
